@@ -204,11 +204,14 @@ Definition d_fop (tab : dtab) (x : sx) : option fop :=
   | SList [SNum 0; s] => sc <- d_script s ;; Some (FCreate sc)
   | SList [SNum 1; s; SNum f] =>
       sc <- d_script s ;;
-      Some (FCreateFault sc (if f =? 0 then SkCreateTemp else CkRemoveOrRename))
+      Some (FCreateFault sc (if f =? 0 then SkCreateTemp else if f =? 1 then CkRemoveOrRename else SkTeeHash))
   | SList [SNum 2; k] => kk <- d_key tab k ;; Some (FOpen kk)
   | SList [SNum 3; k] => kk <- d_key tab k ;; Some (FHas kk)
   | _ => None
   end.
+
+Definition d_ushape (sh e : N) : ushape :=
+  if sh =? 0 then UPlain else if sh =? 1 then UErr e else UBoth e.
 
 Definition d_hop (tab : dtab) (x : sx) : option hop :=
   match x with
@@ -222,6 +225,17 @@ Definition d_hop (tab : dtab) (x : sx) : option hop :=
   | SList [SNum 7; s] => sc <- d_script s ;; Some (HpCreate sc)
   | SList [SNum 8; k] => kk <- d_key tab k ;; Some (HpOpen kk)
   | SList [SNum 9; k] => kk <- d_key tab k ;; Some (HpHas kk)
+  | SList [SNum 10; s; SNum sh; SNum e] => sc <- d_script s ;; Some (HuCreate sc (d_ushape sh e))
+  | SList [SNum 11; k; SNum sh; SNum e] => kk <- d_key tab k ;; Some (HuOpen kk (d_ushape sh e))
+  | SList [SNum 12; k; SNum sh; SNum e] => kk <- d_key tab k ;; Some (HuHas kk (d_ushape sh e))
+  | _ => None
+  end.
+
+Definition d_xop (x : sx) : option xop :=
+  match x with
+  | SList [SNum 0; b] => c <- d_bytes b ;; Some (XBytes c)
+  | SList [SNum 2; s] => sc <- d_script s ;; Some (XReader sc)
+  | SList [SNum 4] => Some XOsErr
   | _ => None
   end.
 
@@ -288,6 +302,9 @@ Definition d_case (x : sx) : option ccase :=
   | SList [SNum 5; t; SHex h; SNum sg; SNum ab; SNum code; s; tr] =>
       tab <- d_tab t ;; sc <- d_script s ;; tt <- d_trace tr ;;
       Some (CNewCr tab h (d_Z sg ab) code sc tt)
+  | SList [SNum 6; t; ops; obs] =>
+      tab <- d_tab t ;; oo <- d_listof d_xop ops ;; bb <- d_listof (d_obs tab) obs ;;
+      Some (CHash tab oo bb)
   | _ => None
   end.
 
